@@ -130,7 +130,7 @@ def run(ctx):
                 seen['arg'] = a[1]
                 return [('x',)] * k
             it.call_hooks['path.Path.intersect'] = pint
-            r = it.call(it.closure_of('path.path_encloses_pt'), [Rat.csym('pt'), Rat.csym('opt'), path], {})
+            r = it.truth(it.call(it.closure_of('path.path_encloses_pt'), [Rat.csym('pt'), Rat.csym('opt'), path], {}))
             probe = seen.get('recv')
             segs = it.iterate(probe) if probe is not None else []
             return r, bool(asserted), seen.get('arg') is path, [(s.attrs['start'], s.attrs['end']) for s in segs]
